@@ -78,3 +78,16 @@ Definition rchk_wf (d : rdir) : bool :=
       end
   | _, _, _, _ => false
   end.
+
+From Darr Require Import Crash.
+Definition rchk_trace (c : res rworld) (o : rop) (obs : list (list Z)) : bool :=
+  match c with
+  | Ok w => let '(_, _, es) := rexec w o in
+            zll_eqb (dedup (map rdir_flat (snd w :: rtrace_states (snd w) es))) obs
+  | Err _ => false
+  end.
+Definition rdbg_trace (c : res rworld) (o : rop) : list (list Z) :=
+  match c with
+  | Ok w => let '(_, _, es) := rexec w o in dedup (map rdir_flat (snd w :: rtrace_states (snd w) es))
+  | Err _ => []
+  end.
